@@ -23,6 +23,27 @@ def _specs():
     return {'params': params, 'ops': ops}
 
 
+def _flipped():
+    """the built-in specs with the SAME pattern -> function table and the `shared` flag flipped (ops counted once per layer,
+    params once per invocation)"""
+    import copy
+    out = {}
+    for k, v in _specs().items():
+        c = copy.deepcopy(v)
+        c.shared = not v.shared
+        out[k] = c
+    return out
+
+
+def shared_of(st, s):
+    base = _specs()[s].shared
+    return (not base) if st.get('flip') else base
+
+
+def metrics_of(st):
+    return ('ops',) if st.get('flip') == 'single' else SPECS
+
+
 def leaf_calls(model, ex, torch):
     """forward hooks on every leaf module: [(qualified name, module, output shape)] in call order"""
     calls, hooks = [], []
@@ -77,10 +98,19 @@ def observe(args):
     except Exception as e:  # noqa
         out['import_exc'] = 'EXC:%s:%s' % (type(e).__name__, str(e)[:200])
         return out
+    flipped = _flipped()
     for st in settings:
-        o = {'cost': {}, 'scratch': {}}
+        o = {'cost': {}, 'scratch': {}, 'fresh': {}}
+        use = {k: (flipped[k] if st.get('flip') else specs[k]) for k in SPECS}
         for full in (False, True):
             sn = sns[full]
+            # cost specification re-assigned on the LIVE wrapper (variants differ only in `shared`)
+            if st.get('flip') == 'dict':
+                sn.cost_specification = {k: flipped[k] for k in SPECS}
+            elif st.get('flip') == 'single':
+                sn.cost_specification = flipped['ops']
+            elif st.get('reassign_orig'):
+                sn.cost_specification = dict(specs)
             sn.train() if st['train'] else sn.eval()
             G.set_alpha(d, sn, st['alphas'], torch)
             combs = G.combiners(d, sn)
@@ -102,9 +132,17 @@ def observe(args):
                     o['theta'] = th
                 else:
                     o['theta_same'] = (th == o.get('theta'))
-                for s in SPECS:
-                    o['cost']['%s/%d' % (s, full)] = float(sn.get_cost(s))
+                for s in metrics_of(st):
+                    o['cost']['%s/%d' % (s, full)] = float(sn.get_cost() if st.get('flip') == 'single' else sn.get_cost(s))
                 o['exc'] = None
+                if st.get('flip'):   # a FRESH wrapper constructed with that specification, same coefficients / options / seed
+                    sn2 = SuperNet(m, cost=(flipped['ops'] if st['flip'] == 'single' else {k: flipped[k] for k in SPECS}), input_example=ex, full_cost=full)
+                    sn2.train() if st['train'] else sn2.eval()
+                    torch.manual_seed(st['seed'])
+                    with torch.no_grad():
+                        sn2(x)
+                    for s in metrics_of(st):
+                        o['fresh']['%s/%d' % (s, full)] = float(sn2.get_cost() if st['flip'] == 'single' else sn2.get_cost(s))
             except Exception as e:  # noqa
                 o['exc'] = 'EXC:%s:%s' % (type(e).__name__, str(e)[:200])
                 break
@@ -114,7 +152,7 @@ def observe(args):
                     ecalls = leaf_calls(e.eval(), ex, torch)
                     for s in SPECS:
                         for f2 in (False, True):
-                            o['scratch']['%s/%d' % (s, f2)] = str(scratch_cost(specs[s], ecalls, f2))
+                            o['scratch']['%s/%d' % (s, f2)] = str(scratch_cost(use[s], ecalls, f2))
                     o['export_exc'] = None
                 except Exception as e_:  # noqa
                     o['export_exc'] = 'EXC:%s:%s' % (type(e_).__name__, str(e_)[:160])
@@ -185,6 +223,14 @@ def gen_settings(rng, d, quick):
             runner = 'later' if rng.random() < 0.25 else 'earlier'
             st([G.gen_alpha_neartie(rng, k, gap, runner)[0] for k in nbr], False, [True] * len(nbr), temp, via=rng.choice([None, True]))
             sts[-1]['neartie'] = {'gap': gap, 'runner': runner}
+    # re-assignment of the cost specification on the live wrapper: same functions, flipped `shared` (dict, then a single spec), then back
+    for flip in ('dict', 'dict', 'single', None):
+        hard = rng.random() < 0.6
+        st(rand_alpha(), False, [hard] * len(nbr), None)
+        if flip:
+            sts[-1]['flip'] = flip
+        else:
+            sts[-1]['reassign_orig'] = True
     if all(k <= 4 for k in nbr):   # every selection, hard
         for win in itertools.product(*[range(k) for k in nbr]):
             st([G.gen_alpha(rng, k, w) for k, w in zip(nbr, win)], False, [True] * len(nbr), None)
@@ -214,16 +260,29 @@ def check_obs(d, table, st, o, fails, tag):
     theta = [[Fraction(v) for v in t] for t in o['theta']]
     win = [max(range(len(a)), key=lambda i: (a[i], -i)) for a in st['alphas']]
     is_hard_argmax = all(theta[b] == onehot(win[b], nbr[b]) for b in range(len(nbr)))
-    for s in SPECS:
-        shared = specs[s].shared
+    # hard selection requested and nothing random about it: eval mode (a Gumbel block does not inject noise there) or no Gumbel block
+    eff_hard = [bool(st['via_update'])] * len(nbr) if st.get('via_update') is not None else list(st['hard'])
+    used = sorted({it[1] for it in d['chain'] if it[0] == 'block'})
+    det_hard = (all(eff_hard[b] for b in used) and not st.get('after') and not st.get('neartie')
+                and (not st['train'] or not any(d['blocks'][b]['gumbel'] for b in used)))
+    sfx = ':after-cost-specification-reassignment' if (st.get('flip') or st.get('reassign_orig')) else ''
+    for s in metrics_of(st):
+        shared = shared_of(st, s)
         for full in (False, True):
             c = o['cost']['%s/%d' % (s, full)]
+            if st.get('flip') and o['fresh'].get('%s/%d' % (s, full)) != c:
+                fails.append(('reassigned-spec-differs-from-fresh-supernet', dict(info, what='metric %s (shared=%s) full_cost=%s: cost_specification re-assigned on a live SuperNet gives %r, a SuperNet constructed with that specification gives %r' % (s, shared, full, c, o['fresh'].get('%s/%d' % (s, full))))))
+            if det_hard and o.get('export_exc') is None and o['scratch'] and not (is_diffres(d) and not shared):
+                sc0 = Fraction(o['scratch']['%s/%d' % (s, full)])
+                if not close(c, sc0, 2.0 ** -22):
+                    fails.append(('hard-selection-cost-differs-from-exported' + (':gumbel-block' if any(d['blocks'][b]['gumbel'] for b in used) else '') + sfx,
+                                  dict(info, what='metric %s full_cost=%s, hard_softmax set on every block, %s mode, theta_alpha %r: get_cost = %r, metric of the exported network = %r' % (s, full, 'train' if st['train'] else 'eval', o['theta'], c, float(sc0)))))
             exp = mix_cost(d, table, s, shared, full, lambda b, bc: theta[b])
             lo = mix_cost(d, table, s, shared, full, lambda b, bc: onehot(min(range(len(bc)), key=lambda i: bc[i]), len(bc)))
             hi = mix_cost(d, table, s, shared, full, lambda b, bc: onehot(max(range(len(bc)), key=lambda i: bc[i]), len(bc)))
             w = {'metric': s, 'shared': shared, 'full_cost': full, 'get_cost': c}
             if not close(c, exp, TOL):
-                fails.append(('cost-not-weighted-mix', dict(info, what='%r: get_cost = %r, sum of coefficient-weighted branch costs (+ fixed layers with full_cost) = %r' % (w, c, float(exp)))))
+                fails.append(('cost-not-weighted-mix' + sfx, dict(info, what='%r: get_cost = %r, sum of coefficient-weighted branch costs (+ fixed layers with full_cost) = %r' % (w, c, float(exp)))))
             if not (float(lo) * (1 - TOL) - 1e-9 <= c <= float(hi) * (1 + TOL) + 1e-9):
                 fails.append(('cost-outside-selection-bounds', dict(info, what='%r: get_cost = %r not in [cheapest selection %r, dearest selection %r]' % (w, c, float(lo), float(hi)))))
             # the exported network is the raw arg-max selection: its metric from scratch = the cost of that selection
@@ -259,6 +318,8 @@ def run(ctx):
                 'metrics params (shared) and ops (per invocation) x full_cost off/on; settings per network: constructed options at uniform coefficients, soft eval, soft/Gumbel train, '
                 'hard eval, hard/Gumbel-hard train, update_softmax_options(hard=...), temperatures {.05,.1,.5,1,2,5,20}, coefficients = distinct multiples of 1/16 (10% ties), '
                 '5 sequences forward -> update_softmax_options(hard / temperature) -> get_cost WITHOUT a new forward (soft pass then hard flag, hard pass then soft flag; cost compared on the theta_alpha observed at that moment), '
+                '4 settings per network re-assign cost_specification on the LIVE wrapper to variants that differ only in `shared` (built-in functions, flipped flag; dict, dict, single spec, back), compared with a freshly constructed SuperNet and with the model; '
+                'networks alternate all-Gumbel / no-Gumbel / mixed blocks so that every gumbel x hard x train/eval combination gets a forward pass then a cost; hard + deterministic (eval, or no Gumbel block) => cost = exported network; '
                 'a NEAR-TIE stream per network (unique raw maximum 1/2/4 float32 ulps or 1e-6 above a runner-up, T in {.05,1,20,100}, hard: the exported network must cost what the raw arg-max selection costs), '
                 'and EVERY winner combination under hard selection when all blocks have <= 4 branches; one case = (network, setting); non-trivial = some block has two branches of different cost; '
                 'distinct by (network, sampled coefficients)')
@@ -274,6 +335,14 @@ def run(ctx):
         nets.append((G.gen_desc(rng, small=False), 'large'))
     for i in range(n_diff):
         nets.append((G.gen_desc(rng, small=True, twice=True, diffres=True, tail=rng.random() < 0.3), 'diffres'))
+    # Gumbel configuration per network: all blocks Gumbel / none / as drawn, constructor hard flag forced on half of the uniform ones,
+    # so that every combination gumbel x hard x train/eval occurs with a forward pass before the cost
+    for i, (d, _) in enumerate(nets):
+        if i % 3 != 2:
+            for blk in d['blocks']:
+                blk['gumbel'] = (i % 3 == 0)
+                if i % 2 == 0:
+                    blk['hard'] = True
     work = [(d, gen_settings(rng, d, ctx.quick)) for d, _ in nets]
     from concurrent.futures import ProcessPoolExecutor
     with ProcessPoolExecutor(min(NPROC, 12)) as ex:
@@ -291,6 +360,12 @@ def run(ctx):
             mode = ('fwd-then-update(hard=%s)-then-cost:' % st['after']['hard'] if st.get('after') else '') + ('train' if st['train'] else 'eval') + ('/hard' if all(st['hard']) else '/soft' if not any(st['hard']) else '/mixed') + ('/gumbel' if any(b['gumbel'] for b in d['blocks']) else '')
             ctx.case((strip(d), o.get('theta')), nontrivial=nontriv, kind=tag + ':' + mode,
                      sample={'n_branches': [len(b['branches']) for b in d['blocks']], 'chain': d['chain'], 'mode': mode, 'theta': o.get('theta'), 'get_cost': o['cost'], 'exported_from_scratch': o['scratch']})
+            gum = {b['gumbel'] for b in d['blocks']}
+            if len(gum) == 1 and len(set(st['hard'])) == 1 and st.get('via_update') is None and not st.get('after'):
+                ctx.dist['combination gumbel=%s hard=%s %s' % (gum.pop(), st['hard'][0], 'train' if st['train'] else 'eval')] += 1
+            if st.get('flip') or st.get('reassign_orig'):
+                ctx.dist['cost_specification re-assigned on the live SuperNet: %s' % (st.get('flip') or 'back to the original dict')] += 1
+                ctx.extra['spec_reassignment_cases'] = ctx.extra.get('spec_reassignment_cases', 0) + 1
             if st.get('neartie'):
                 ctx.extra['near_tie_cases'] = ctx.extra.get('near_tie_cases', 0) + 1
                 ctx.dist['near-tie gap %s T=%s' % (st['neartie']['gap'], st['temp'])] += 1
@@ -321,17 +396,17 @@ def run(ctx):
             for ni, d, table, st, o in flat:
                 thetas = [(b, [Fraction(v) for v in t]) for b, t in enumerate(o['theta'])]
                 alphas = [(b, [Fraction(v) for v in a]) for b, a in enumerate(st['alphas'])]
-                for s in SPECS:
+                for s in metrics_of(st):
                     for full in (False, True):
                         exprs.append('(run_cost %s %s tab_%d_%s %s net_%d, run_export_cost %s %s tab_%d_%s %s net_%d)'
-                                     % (coq(specs[s].shared), coq(full), ni, s, coq(thetas), ni, coq(specs[s].shared), coq(full), ni, s, coq(alphas), ni))
+                                     % (coq(shared_of(st, s)), coq(full), ni, s, coq(thetas), ni, coq(shared_of(st, s)), coq(full), ni, s, coq(alphas), ni))
                         meta.append((ni, d, table, st, o, s, full))
             vals = ctx.coq_eval_sharded('cases', ['Plinio.Model.SuperNet'], defs, exprs, shard=150)
             for (ni, d, table, st, o, s, full), v in zip(meta, vals):
                 # Coq prints left-nested pairs flat: ((n, d), lo, hi), ec  ->  (n, d, lo, hi, ec)
                 mcn, mcd, mlo, mhi, ec = v
                 mc, mlo, mhi = Fraction(mcn, mcd), Fraction(*mlo), Fraction(*mhi)
-                shared = specs[s].shared
+                shared = shared_of(st, s)
                 c = o['cost']['%s/%d' % (s, full)]
                 ctx.corr += 1
                 if not close(c, mc, TOL):
